@@ -1010,3 +1010,49 @@ def attrtype(repo):
     res.samples = [f"{found} checkers, each against 5 wrong value kinds"]
     res.analysed = [m.rel]
     return res
+
+
+# ---- R-PHYSREQ -------------------------------------------------------------------------------------------
+def physreq(repo, schema=None, sites=None):
+    """R-PHYSREQ (C14): the prelude's `[static_requirements]` (width limits of UInt/Int/Bcd/Flag/Float ...) are evaluated
+    by one function (the one that reads the STATIC_REQUIREMENTS attribute).  A physical type occurs on fields and on
+    runtime parameters; for each of the two node kinds some traversal registered in constraints.py must run an action
+    from which that function is reachable, otherwise unrealisable widths are accepted for that kind of use."""
+    from . import traversal as T
+    res = RuleResult("R-PHYSREQ")
+    schema = schema or Schema(repo)
+    sites = sites if sites is not None else T.collect_sites(repo, schema)
+    cons = repo.mod("compiler/front_end/constraints.py")
+    target = None
+    for f in cons.top_funcs():
+        if any(isinstance(n, ast.Attribute) and n.attr == "STATIC_REQUIREMENTS" for n in walk_no_nested_funcs(f.node)) \
+                and any(isinstance(n, ast.Call) and (call_name(n) or "").endswith("get_attribute") for n in walk_no_nested_funcs(f.node)):
+            target = f
+    if target is None:
+        raise AnalysisError("constraints: the function evaluating [static_requirements] was not found")
+    refs = repo.refs()
+
+    def reaches(fq):
+        seen, work = set(), [fq]
+        while work:
+            k = work.pop()
+            if k in seen:
+                continue
+            seen.add(k)
+            work.extend(g.fq for g in refs.get(k, ()))
+        return target.fq in seen
+
+    for kind in ("Type", "RuntimeParameter"):  # field types are visited as [Structure, Type]
+        res.instances += 1
+        acts = [s.action for s in sites if s.module.rel == cons.rel and s.action is not None and s.pattern and s.pattern[-1] == kind]
+        if not acts:
+            raise AnalysisError(f"constraints: no traversal over {kind}")
+        if not any(reaches(a.fq) for a in acts):
+            res.add(f"{cons.rel}|{target.name}|{kind}", f"no validator registered for {kind} nodes reaches {target.name}: the prelude's "
+                    f"static requirements (e.g. 1 <= width <= 64) are not evaluated for the physical type of a "
+                    f"{'runtime parameter' if kind == 'RuntimeParameter' else 'field'} ({', '.join(a.name for a in acts)})",
+                    cons.rel, target.line, target.name)
+        else:
+            res.samples.append(f"{kind}: {[a.name for a in acts if reaches(a.fq)]} -> {target.name}")
+    res.analysed = [cons.rel]
+    return res
